@@ -59,6 +59,10 @@ class Unit:
         self.report = report
         self.chunks = []      # (text, label)   label: None | ('clause', fn, Clause) | ('code', fn, path, line0)
         self.fns = []
+        # proof-carrying anchors (a loop to hang an invariant on, a statement to put a ghost line next to) that
+        # were not found in the current text.  The function is still verified against its pre/postconditions
+        # without them; a failure is then only reported as a violation when a failing input is found natively.
+        self.anchor_lost = []
 
     def emit(self, text, label=None):
         if not text.endswith('\n'):
@@ -131,7 +135,8 @@ class Unit:
             lines = body.split('\n')
             hits = [i for i, l in enumerate(lines) if anchor in l]
             if len(hits) != 1:
-                raise LostAnchor('%s: anchor %r found %d times in %s' % (where, anchor, len(hits), f.name))
+                self.anchor_lost.append('%s: ghost-line anchor %r found %d times in %s (ghost line not inserted)' % (where, anchor, len(hits), f.name))
+                continue
             i = hits[0]
             ghost = '/*@@GHOST*/ ' + text.strip().replace('\n', '\n/*@@GHOST*/ ')
             if pos == 'after':
@@ -149,13 +154,17 @@ class Unit:
             loop_specs[k[0] + 1] = f.enumerate_rule
             body = body.replace('/*@@ENUM-INV@@*/\n', '')
             loops = rustsrc.loops_in(body)
-        for k in loop_specs:
+        for k in list(loop_specs):
             if k < 1 or k > len(loops):
-                raise LostAnchor('%s: loop #%d of %s not found (%d loops)' % (where, k, f.name, len(loops)))
+                self.anchor_lost.append('%s: loop #%d of %s not found (%d loops): its invariant is not spliced' % (where, k, f.name, len(loops)))
+                del loop_specs[k]
+        if len(loops) != len(f.loops) + (1 if f.enumerate_rule is not None else 0) and not any(f.name in a for a in self.anchor_lost):
+            self.anchor_lost.append('%s: %s has %d loops, the contract file expects %d' % (where, f.name, len(loops), len(f.loops)))
         n_unspec = [k + 1 for k in range(len(loops)) if (k + 1) not in loop_specs]
         # ---- emit
         rep.functions.append('%s fn `%s` sha256/16=%s (verbatim body, contract spliced)' % (where, f.name, it.sha()))
         self.fns.append(f)
+        f.spliced_loop_specs = loop_specs
         for a in f.attrs:
             self.emit(a)
         self.emit(sig, ('code', f.name, it.path, it.line))
@@ -277,7 +286,7 @@ class Unit:
         nfn = max(1, len(self.fns))
         per = (total_ms / 1000.0) / max(1, sum(len(f.requires) + len(f.ensures) + 1 + sum(len(s.get('invariant', [])) for s in list(f.loops.values()) + ([f.enumerate_rule] if f.enumerate_rule else [])) for f in self.fns))
         for f in self.fns:
-            specs = list(f.loops.values()) + ([f.enumerate_rule] if f.enumerate_rule else [])
+            specs = list(getattr(f, 'spliced_loop_specs', {}).values())
             clauses = [(c, 'ensures') for c in f.ensures] + [(c, 'invariant') for s in specs for c in s.get('invariant', [])]
             for c, what in clauses:
                 oid = '%s.%s' % (f.name, c.id)
@@ -312,6 +321,19 @@ class Unit:
         if vr.get('verified', 0) == 0 and not diags:
             raise Undecided('verus verified 0 items in %s (vacuous run)' % self.name)
         return obs
+
+
+def settle_lost_anchors(unit, obs, rep):
+    """call after the native counterexample search: when proof-carrying anchors were lost, a failed obligation
+    without a failing input on the real code is 'proof no longer fits the code' (undecided), not an alarm; one WITH a
+    failing input is a violation whatever happened to the anchors."""
+    if not unit.anchor_lost:
+        return
+    rep.notes.append('anchors lost in the current text: ' + '; '.join(unit.anchor_lost))
+    for o in obs:
+        if o.status == 'failed' and (o.replay or {}).get('input') is None:
+            o.status = 'undecided'
+            o.detail = 'proof-carrying anchor lost (%s) and no failing input found natively\n' % '; '.join(unit.anchor_lost) + o.detail
 
 
 def canary(report):
